@@ -307,6 +307,78 @@ Proof.
     apply in_map_iff in Hhc as [c [<- Hc]]. apply render_event. apply (forallb_In _ _ c Qt Hc).
 Qed.
 
+(* ------------------------------------------------------------------ an emitted event is queued *)
+
+Lemma filter_le1 {A} (f : A -> N) v : forall l, NoDup (map f l) ->
+  (length (filter (fun x => N.eqb (f x) v) l) <= 1)%nat.
+Proof.
+  induction l as [|x r IH]; intros H; [simpl; lia|]. inversion H as [|? ? Hx Hr]; subst. simpl.
+  destruct (N.eqb (f x) v) eqn:E; [|now apply IH].
+  apply N.eqb_eq in E. simpl.
+  assert (Z : filter (fun y => N.eqb (f y) v) r = []).
+  { destruct (filter (fun y => N.eqb (f y) v) r) as [|y ys] eqn:F; [reflexivity|]. exfalso.
+    assert (Hy : In y (filter (fun y => N.eqb (f y) v) r)) by (rewrite F; now left).
+    apply filter_In in Hy as [Hy Ey]. apply N.eqb_eq in Ey. apply Hx. rewrite E, <- Ey. now apply in_map. }
+  rewrite Z. simpl. lia.
+Qed.
+
+Lemma kube_pairs_snd cfg : map snd (kube_pairs cfg) = map snd (kube_bindings cfg).
+Proof.
+  unfold kube_pairs, kube_bindings. induction cfg as [|h r IH]; [reflexivity|]. simpl.
+  rewrite !map_app, IH. f_equal. rewrite !map_map. reflexivity.
+Qed.
+
+Lemma filter_map_snd {A B} (p : B -> bool) (l : list (A * B)) :
+  map snd (filter (fun x => p (snd x)) l) = filter p (map snd l).
+Proof. induction l as [|x r IH]; [reflexivity|]. simpl. destruct (p (snd x)); simpl; now rewrite IH. Qed.
+
+(* at most one binding watches through a given monitor (names are unique, a monitor is named
+   after its binding) *)
+Lemma one_binding_per_monitor cfg m : wf_facts cfg ->
+  (length (filter (fun hb : N * kbinding => N.eqb (kb_mon (snd hb)) m) (kube_pairs cfg)) <= 1)%nat.
+Proof.
+  intros W.
+  rewrite <- (map_length snd), (filter_map_snd (fun b => N.eqb (kb_mon b) m)), kube_pairs_snd.
+  assert (E : filter (fun b => N.eqb (kb_mon b) m) (map snd (kube_bindings cfg))
+              = filter (fun b => N.eqb (kb_name b) m) (map snd (kube_bindings cfg))).
+  { apply filter_ext_in. intros b Hb. apply in_map_iff in Hb as [[h b'] [<- Hb]]. cbn [snd].
+    unfold kube_bindings in Hb. apply in_flat_map in Hb as [h' [Hh Hb]]. apply in_map_iff in Hb as [b'' [E Hb]].
+    inversion E; subst. now rewrite (wf_mon cfg W h b' Hh Hb). }
+  rewrite E. apply (filter_le1 kb_name m). rewrite map_map. exact (wf_knames cfg W).
+Qed.
+
+Lemma has_queue_fold_add l : forall qs n, has_queue qs n = true -> has_queue (fold_left add_queue l qs) n = true.
+Proof.
+  induction l as [|x l IH]; intros qs n H; [exact H|]. simpl. apply IH.
+  unfold add_queue. destruct (has_queue qs x); [exact H|].
+  unfold has_queue in *. rewrite existsb_app, H. reflexivity.
+Qed.
+
+Lemma has_queue_fold_added l : forall qs n, In n l -> has_queue (fold_left add_queue l qs) n = true.
+Proof.
+  induction l as [|x l IH]; intros qs n H; [destruct H|]. simpl. destruct H as [->|H]; [|now apply IH].
+  apply has_queue_fold_add. unfold add_queue. destruct (has_queue qs n) eqn:E; [exact E|].
+  unfold has_queue. rewrite existsb_app. cbn. rewrite N.eqb_refl. apply orb_true_r.
+Qed.
+
+Lemma boot_queue_of_binding cfg h b : In h cfg -> In b (h_kube h) -> has_queue (boot_queues cfg) (kb_queue b) = true.
+Proof.
+  intros Hh Hb. unfold boot_queues. apply has_queue_fold_added.
+  apply in_flat_map. exists h. split; [exact Hh | now apply in_map].
+Qed.
+
+(* a single Event task in an idle queue is picked as it is *)
+Lemma adv_one_single_event cfg qok n tk :
+  t_type tk = HookRun -> is_sync tk = false ->
+  q_items (adv_one cfg qok (mkQ n [tk] None false)) = [tk].
+Proof.
+  intros Ty Sy. unfold adv_one, is_running. cbn [q_running q_items q_name].
+  unfold fuel_for. cbn [fold_right]. unfold advance_q at 1. rewrite Ty.
+  unfold should_run. rewrite Sy. cbn [andb negb].
+  destruct (negb _ && should_combine tk && qok (t_queue tk)); [|reflexivity].
+  unfold combine. cbn [take_block]. reflexivity.
+Qed.
+
 (* ------------------------------------------------------------------ one step *)
 
 Section Run.
@@ -414,6 +486,74 @@ Proof.
     rewrite EU. apply in_or_app. left. apply (fin_mids s qn false t HI C1 C2 MH Su b Hb).
 Qed.
 
+(* clause (4): an event an unlocked monitor emits is queued *)
+Lemma event_queued_holds s a : good s ->
+  event_queued cfg (stopped s) a (observe cfg s) (observe cfg (step cfg s a)) = true.
+Proof.
+  intros G. unfold event_queued. destruct a as [| |m obj| | | |]; try reflexivity.
+  rewrite so_unlocked_observe.
+  destruct (mem_N m (sort_dedup (unlocked s))) eqn:M; [|reflexivity].
+  destruct (stopped s) eqn:St; [reflexivity|]. cbn [negb andb].
+  apply (proj1 (mem_N_In _ _)) in M. apply (proj1 (in_sort_dedup _ _)) in M.
+  apply forallb_forall. intros [h b] Hhb. cbn [snd]. destruct (N.eqb (kb_mon b) m) eqn:Em; [|reflexivity].
+  apply N.eqb_eq in Em.
+  unfold kube_bindings in Hhb. apply in_flat_map in Hhb as [h' [Hh Hb]]. apply in_map_iff in Hb as [b' [E Hb]].
+  inversion E; subst h' b'. clear E.
+  (* the operator is booted: the binding's queue exists *)
+  destruct (gd_boot s G) as [(_ & _ & U & _)|HJ]; [rewrite U in M; destruct M|].
+  destruct HJ as [sts others mr md Qs Hq Hst Hoth Hn Hp].
+  assert (Hne : queues s <> []) by (rewrite Hq; discriminate).
+  assert (HQ : has_queue (queues s) (kb_queue b) = true)
+    by (rewrite (has_queue_names _ _ Hn); now apply (boot_queue_of_binding cfg h b)).
+  unfold has_queue in HQ. apply existsb_exists in HQ as [q [Hq0 Eq]]. apply N.eqb_eq in Eq.
+  (* the tasks of this event: exactly the one of this binding *)
+  set (tk := kube_task_of obj (h_id h, b)).
+  assert (Hts : kube_tasks cfg (unlocked s) m obj = [tk]).
+  { rewrite kube_tasks_exactly. rewrite (proj2 (mem_N_In m (unlocked s)) M).
+    pose proof (one_binding_per_monitor cfg m W) as L1.
+    assert (Hin : In (h_id h, b) (filter (fun hb : N * kbinding => N.eqb (kb_mon (snd hb)) m) (kube_pairs cfg))).
+    { apply filter_In. split; [|cbn [snd]; now apply N.eqb_eq].
+      unfold kube_pairs. apply in_flat_map. exists h. split; [exact Hh | now apply in_map]. }
+    destruct (filter (fun hb : N * kbinding => N.eqb (kb_mon (snd hb)) m) (kube_pairs cfg)) as [|x [|y r]] eqn:F.
+    - destruct Hin.
+    - destruct Hin as [->|[]]. reflexivity.
+    - simpl in L1. lia. }
+  (* where it ends up *)
+  unfold has_event. apply existsb_exists.
+  pose proof (step_queue_local cfg s (KubeEv m obj) (inv_names s (gd_inv s G)) Hne) as SQ.
+  set (q' := step_q cfg (KubeEv m obj) (sched_on s) (unlocked s) (stopped s) (has_queue (queues s)) q).
+  assert (Hq' : In q' (queues (step cfg s (KubeEv m obj)))) by (rewrite SQ; now apply in_map).
+  assert (Hobs : exists qo, In qo (so_queues (observe cfg (step cfg s (KubeEv m obj)))) /\ qo_items qo = q_items q').
+  { unfold observe. cbn [so_queues]. eexists. split.
+    - apply in_map. apply (proj2 (in_sort_queues q' _)). exact Hq'.
+    - reflexivity. }
+  destruct Hobs as (qo & Hqo & Eqo). exists qo. split; [exact Hqo|]. rewrite Eqo.
+  assert (Htk : In tk (q_items q')).
+  { unfold q', step_q. rewrite St. cbn [orb is_stop]. rewrite Hts.
+    assert (Ea : app_many [tk] q = mkQ (q_name q) (q_items q ++ [tk]) (q_running q) (q_delay q)).
+    { unfold app_many. cbn [filter]. unfold tk at 1, kube_task_of. cbn [t_queue snd]. now rewrite Eq, N.eqb_refl. }
+    rewrite Ea. unfold adv_one at 1. cbn [is_running q_running].
+    destruct (q_running q) as [sy|] eqn:R.
+    - cbn [q_items]. apply in_or_app. right. now left.
+    - (* idle: the queue was empty (every queue is blocked or empty) *)
+      pose proof (inv_quiet s (gd_inv s G) St) as Qu. rewrite Forall_forall in Qu.
+      destruct (Qu q Hq0) as [Rn|Em0]; [unfold is_running in Rn; rewrite R in Rn; discriminate|].
+      pose proof (inv_delay s (gd_inv s G)) as Dl. rewrite Forall_forall in Dl.
+      assert (Dq : q_delay q = false).
+      { destruct (q_delay q) eqn:D; [|reflexivity]. specialize (Dl q Hq0 D). unfold is_running in Dl. rewrite R in Dl. discriminate. }
+      rewrite Em0, Dq. cbn [app].
+      pose proof (adv_one_single_event cfg (has_queue (queues s)) (q_name q) tk eq_refl eq_refl) as A.
+      unfold adv_one in A. cbn [is_running q_running q_items q_name] in A.
+      cbn [q_items q_name]. 
+      match goal with |- In tk (q_items ?X) => change X with
+        (let '(items, run, _) := advance_q (fuel_for cfg [tk]) cfg (has_queue (queues s)) [tk] no_shared in
+         mkQ (q_name q) items run false) end.
+      rewrite A. now left. }
+  apply existsb_exists. exists tk. split; [exact Htk|].
+  apply existsb_exists. eexists. split; [unfold tk, kube_task_of; cbn [t_ctxs]; now left|].
+  cbn [c_kind c_binding c_obj snd]. now rewrite !N.eqb_refl.
+Qed.
+
 (* ------------------------------------------------------------------ all steps *)
 
 Lemma steps_ok_from : forall acts s, good s ->
@@ -427,7 +567,7 @@ Proof.
   rewrite <- Hst, (IH _ G'), andb_true_r.
   unfold C01_OpSpec.step_ok.
   rewrite so_bad_observe, (unlock_legal_holds s a G), (events_only_unlocked_holds cfg _ (gd_ev _ G')),
-          (unlock_complete_holds s a (stopped s) G).
+          (unlock_complete_holds s a (stopped s) G), (event_queued_holds s a G).
   reflexivity.
 Qed.
 
